@@ -75,10 +75,10 @@ func arBases() []base {
 	}
 }
 
-// debWideSet bounds the wide product on the .deb bases, whose sets also go through deb.Load: deb-gz and deb-stored
-// take every single corruption and every pair that involves a name column (name x name in both orders, name x any
-// aligned size / timestamp / uid / gid / mode / magic); deb-pre (which exists for its EMPTY first member) every single
-// and name x name over all member pairs. The small bases ar2/ar3 take the full product.
+// debWideSet bounds the wide product on the .deb bases, whose sets also go through deb.Load: deb-gz takes every single
+// corruption and every pair that involves a name column (name x name in both orders, name x any aligned size /
+// timestamp / uid / gid / mode / magic); the 4 KiB bases deb-stored and deb-pre (the latter exists for its EMPTY first
+// member) every single and name x name over all member pairs. The small bases ar2/ar3 take the full product.
 func debWideSet(pre bool, cs []corr) bool {
 	if len(cs) == 1 {
 		return true
@@ -307,6 +307,10 @@ func colValues(col string, trueSize int, wide bool) []string {
 				"#1/0", "#1/3", "#1/20", "#1/99999999999", "#1/-1", "#1/x",
 				// tar-shaped and nearly tar-shaped names (IsTarfile / Tarfile are called on every member)
 				"a.tar", "a.tar.gz", "a.tar.", ".tar", "a.tar.gz.x", "x.tarball", "a.tar.zst", "a.tar.g/z", "a.tar/",
+				// non-ASCII bytes: invalid UTF-8, 2- and 3-byte runes, runes whose case mapping changes the byte length
+				// (U+023A, U+0130, U+212A), dots first / last / only, empty extension, 16 x 0xff
+				".\xe9", "r.\xe9s", "data.\xe9t\xe9\xe9", "data.ȺȺȺȺȺ", "control.\xe9\xe9\xe9\xe9", strings.Repeat("\xff", 16), "İ.tar", "a.İ",
+				"K.tar.gz", "é.tar", "a.tar.é", "data.tar.\xff\xff", "€.tar.gz", ".", "..", "a.", ".a", "a..", "data.", "data.tar.",
 				// NUL inside the column
 				"a\x00b", "\x00//", "/\x00", "//\x00")
 			raw = dedupExcept(append(raw, auditNames()...), "\x01never")
@@ -701,13 +705,13 @@ func Run(r *mc.Run) {
 			via = "ar + deb.Load"
 		}
 		r.Scenario("wide-columns-"+b.name, map[string]interface{}{"base": b.name, "members": len(b.ms), "columns": wideCols, "single_corruptions": len(all),
-			"max_columns_corrupted": kb, "via": via, "readerat_conventions": 2, "deb_bases_sets": "deb-gz, deb-stored: every single + every pair that involves a name column; deb-pre: every single + name x name",
+			"max_columns_corrupted": kb, "via": via, "readerat_conventions": 2, "deb_bases_sets": "deb-gz: every single + every pair that involves a name column; deb-stored, deb-pre: every single + name x name",
 			"name_values": colValues("name", 0, true), "mode_values": colValues("mode", 0, true), "uid_values": colValues("uid", 0, true)},
 			len(all), func(shard int, st *mc.Stats) bool {
 				lim := limiter{}
 				complete := true
 				supersets(all, shard, kb, func(cs []corr) bool {
-					if b.deb && !debWideSet(b.name == "deb-pre", cs) {
+					if b.deb && !debWideSet(b.name != "deb-gz", cs) {
 						return true
 					}
 					bs := gen.ArmBuild(apply(b.ms, cs))
@@ -902,6 +906,7 @@ func Run(r *mc.Run) {
 	poolScratchDirs()
 	x.controlContentScenario(r)
 	x.streamScenario(r)
+	x.tarHeaderScenario(r)
 	removeScratchDirs()
 
 	// ---- large inputs: long runs of one byte and very many members (a reader that does work per byte or per
